@@ -451,8 +451,23 @@ def run(m: Model, r: Report, tier: str) -> None:
             f"{hr.qualname}#pipeline", "handle_request must parse dynamically, ask the server and serialise its response", loc=hr.loc)
     hc = m.require_function(f"{SRV}.TCPUDSServerTransport.handle_client")
     tr_ = [t for t in ast.walk(hc.node) if isinstance(t, ast.Try)]
-    r.check(len(tr_) == 1 and any(h.type is not None and ast.unparse(h.type) == "Exception" and isinstance(h.body[-1], ast.Break) for h in tr_[0].handlers), "R5",
-            f"{hc.qualname}#loop-guard", "the connection loop must catch every Exception of one exchange", loc=hc.loc)
+    # every exception of an exchange ends this connection only: the exchange sits in a try whose `except Exception` neither re-raises nor goes on with the
+    # same (possibly desynchronised) stream - it leaves the loop (break / return), or it encloses the whole loop
+    exch_ = [n for n in ast.walk(hc.node) if isinstance(n, ast.Call) and ast.unparse(n.func).endswith("handle_request")]
+    lp_ = [n for n in ast.walk(hc.node) if isinstance(n, ast.While)]
+    okg = False
+    for t_ in tr_:
+        if not (exch_ and any(exch_[0] is x for b_ in t_.body for x in ast.walk(b_))):
+            continue
+        for h in t_.handlers:
+            if h.type is None or ast.unparse(h.type) not in ("Exception", "BaseException"):
+                continue
+            if any(isinstance(x, ast.Raise) for x in ast.walk(h)):
+                continue
+            encloses_loop = any(l_ is x for l_ in lp_ for b_ in t_.body for x in ast.walk(b_))
+            leaves = isinstance(h.body[-1], (ast.Break, ast.Return))
+            okg = okg or encloses_loop or leaves
+    r.check(okg, "R5", f"{hc.qualname}#loop-guard", "the connection loop must catch every Exception of one exchange", loc=hc.loc)
 
     # ---------------------------------------------------------------- R6
     for q in sorted(emitted):
